@@ -3,3 +3,4 @@ import FtModel.Coiter
 import FtModel.Eq
 import FtModel.Point
 import FtModel.Populate
+import FtModel.Format
